@@ -215,6 +215,32 @@ def _dirs(dirs):
     return out
 
 
+def lit_of_ast(v):
+    """argument value node (Node.to_dict()) -> the literal wire form of the C07 driver"""
+    k = v["__kind__"]
+    if k == "IntValue":
+        return {"k": "int", "v": int(v["value"])}
+    if k == "FloatValue":
+        f = float(v["value"])
+        cls = "nan" if f != f else ("inf" if f in (float("inf"), float("-inf")) else "finite")
+        return {"k": "float", "v": v["value"], "cls": cls}
+    if k == "StringValue":
+        return {"k": "str", "v": v["value"]}
+    if k == "BooleanValue":
+        return {"k": "bool", "v": bool(v["value"])}
+    if k == "NullValue":
+        return {"k": "null"}
+    if k == "EnumValue":
+        return {"k": "enum", "v": v["value"]}
+    if k == "Variable":
+        return {"k": "var", "v": v["name"]["value"]}
+    if k == "ListValue":
+        return {"k": "list", "v": [lit_of_ast(x) for x in v["values"]]}
+    if k == "ObjectValue":
+        return {"k": "obj", "v": [[f["name"]["value"], lit_of_ast(f["value"])] for f in v["fields"]]}
+    return {"k": "null"}
+
+
 def doc_to_json(doc, schema=None, coerced_vars=None):
     """doc: py_gql Document. Returns the plain JSON form sent to the Lean side."""
     from py_gql.exc import CoercionError
@@ -264,7 +290,8 @@ def doc_to_json(doc, schema=None, coerced_vars=None):
             if k == "Field":
                 out.append({"k": "f", "key": (s["alias"] or s["name"])["value"], "name": s["name"]["value"],
                             "loc": s["loc"][0], "dirs": _dirs(s["directives"]), "sels": sels(s["selection_set"]),
-                            "args": args_table(s) if schema is not None else {}})
+                            "args": args_table(s) if schema is not None else {},
+                            "argnodes": [[a["name"]["value"], lit_of_ast(a["value"])] for a in (s["arguments"] or [])]})
             elif k == "InlineFragment":
                 tc = s["type_condition"]
                 out.append({"k": "i", "on": tc["name"]["value"] if tc else None, "dirs": _dirs(s["directives"]),
